@@ -2,6 +2,8 @@ import Holpy.C16.StrictModel
 import Holpy.C16.StrictProofs
 import Holpy.C16.SimplexModel
 import Mathlib.Tactic.Ring
+import Holpy.C16.StrictSimplexCheck2
+import Holpy.C16.StrictSimplexHandle
 /-
 C16 — property theorems about the δ-rationals of `prover/simplex_strict.py` (`Pair`, `binary_delta`,
 `multi_delta`; model in StrictModel.lean, tied to the code by the `delta` stream of
@@ -9,7 +11,11 @@ harness/props/c16.py).  The strict solver itself (the `Simplex` class of simplex
 pairs) is NOT modelled.
 -/
 namespace Holpy.C16
-open Holpy.C16.Strict Holpy.C16.Simplex
+open Holpy.C16.Strict Holpy.C16.Simplex Holpy.C16.StrictSimplex
+
+/-- the tableau of `x0 + 2·x1 ⋈ …`, `x0 - x1 ⋈ …` right after `add_ineqs` -/
+def exampleStateS : SState :=
+  { emptyState with rows := [(0, [(100, 1), (101, 2)]), (1, [(100, 1), (101, -1)])], vars := [100, 101, 0, 1], index := 2 }
 
 /-- `multi_delta(*ps)` is positive, and every comparison `p1 <= p2` of δ-rationals in `ps` holds as a
 comparison of the rationals `x + y·δ` for that concrete `δ`. -/
@@ -73,6 +79,68 @@ theorem strict_sat_sound_partial (qs : List SIneq) (m : Var → Pair)
     rw [evalP_at] at this <;> simp [boundPair, hk, hs, Pair.at] at this <;> simp only [Pair.at] <;> linarith
 
 example : (comparison ⟨.ge, [(100, 1)], 0, true⟩ (fun _ => ⟨0, 1⟩)).1.le (comparison ⟨.ge, [(100, 1)], 0, true⟩ (fun _ => ⟨0, 1⟩)).2 = true := by
+  decide +kernel
+
+/-- `check()` of `simplex_strict.Simplex` answering SAT (any fuel): both components of `mapping`
+satisfy the row equations and every variable lies within its δ-rational bounds in the lexicographic
+order; rows keep their solutions, bounds are unchanged.  (`PInv`: well-formed tableau, both
+components of `mapping` satisfy the rows, non-basic variables within bounds, lower ≤ upper.) -/
+theorem strict_check_sat_sound (fuel : Nat) (s s' : PState) (hinv : PInv s) (h : checkP fuel s = (.sat, s')) :
+    RowsHoldP s'.sx.rows (pval s') ∧ (∀ x, PInB s' (pval s') x) ∧ (∀ w, RowsHold s'.sx.rows w ↔ RowsHold s.sx.rows w) ∧
+      s'.lo = s.lo ∧ s'.hi = s.hi := by
+  obtain ⟨i, l, u, r, hs, _⟩ := checkP_spec fuel s s' .sat hinv h
+  exact ⟨⟨i.rx, i.ry⟩, hs rfl, r, l, u⟩
+
+/-- `check()` of `simplex_strict.Simplex` answering UNSAT (any fuel): no δ-rational assignment
+satisfies the row equations and the bounds of the state it started from (fuel-bounded as for the
+non-strict solver: termination is not proved). -/
+theorem strict_check_unsat_sound (fuel : Nat) (s s' : PState) (xi : Var) (hinv : PInv s) (h : checkP fuel s = (.unsat xi, s')) :
+    ¬ ∃ V : Var → Pair, RowsHoldP s.sx.rows V ∧ ∀ x, PInB s V x := by
+  obtain ⟨_, l, u, r, _, hu⟩ := checkP_spec fuel s s' (.unsat xi) hinv h
+  rintro ⟨V, hV, hb⟩
+  exact hu xi rfl ⟨V, ⟨(r _).mpr hV.1, (r _).mpr hV.2⟩, fun x => (PInB_congr s s' l u V x).mpr (hb x)⟩
+
+-- x0 + 2·x1 = s0 > 1 (bound 1 + δ): check pivots and answers SAT; with x0 ≤ 0, x1 < 0 as well it answers UNSAT
+def exStrictSat : PState := ⟨exampleStateS, fun _ => 0, setQ (fun _ => none) 0 (some ⟨1, 1⟩), fun _ => none⟩
+def exStrictUnsat : PState :=
+  ⟨exampleStateS, fun _ => 0, setQ (fun _ => none) 0 (some ⟨1, 1⟩), setQ (setQ (fun _ => none) 100 (some ⟨0, 0⟩)) 101 (some ⟨0, -1⟩)⟩
+
+example : (checkP 5 exStrictSat).1 == .sat ∧ (checkP 5 exStrictUnsat).1 == .unsat 0 := by decide +kernel
+
+/-- `handle_assertion()` of `simplex_strict.Simplex` running through all atoms: both components of the
+final `mapping` satisfy the rows (which still have the solutions of the initial tableau), and the
+mapping satisfies the initial bounds and every asserted atom `x ≥ c` / `x ≤ c` in the δ-order.
+With `strict_sat_sound_partial` this yields a concrete rational assignment for the asserted atoms;
+MISSING for a full `strict_sat_sound`: the link between the atoms / slack rows that `add_ineqs`
+creates and the given constraints (proved for the non-strict solver only: `simplex_sat_sound`). -/
+theorem strict_handle_assertion_sat_sound (fuel : Nat) (s s' : PState) (atoms : List PAtom) (k : Nat) (tr tr' : List PState)
+    (hinv : PInv s) (hall : ∀ x, PInB s (pval s) x) (h : handleAssertionP fuel s atoms k tr = (.sat s', tr')) :
+    RowsHoldP s'.sx.rows (pval s') ∧ (∀ w, RowsHold s'.sx.rows w ↔ RowsHold s.sx.rows w) ∧
+      (∀ x, PInB s (pval s') x) ∧ ∀ a ∈ atoms, AtomHoldsP a (pval s') := by
+  obtain ⟨i, r, hb, hiff⟩ := StrictSimplex.handle_spec fuel atoms s k tr _ tr' hinv hall h
+  have := (hiff (pval s')).mp hb
+  exact ⟨⟨i.rx, i.ry⟩, r, this.1, this.2⟩
+
+/-- `handle_assertion()` of `simplex_strict.Simplex` raising `UNSATException` or
+`AssertUpper/LowerException`: no δ-rational assignment satisfies the rows of the initial tableau, the
+initial bounds and the asserted atoms (fuel-bounded; the link to the given constraints is missing as above). -/
+theorem strict_handle_assertion_unsat_sound (fuel : Nat) (s : PState) (atoms : List PAtom) (k : Nat) (tr tr' : List PState)
+    (o : POutcome) (hinv : PInv s) (hall : ∀ x, PInB s (pval s) x) (h : handleAssertionP fuel s atoms k tr = (o, tr'))
+    (ho : (∃ xi s', o = .unsat xi s') ∨ (∃ j s', o = .conflict j s')) :
+    ¬ ∃ V : Var → Pair, RowsHoldP s.sx.rows V ∧ (∀ y, PInB s V y) ∧ ∀ a ∈ atoms, AtomHoldsP a V := by
+  have := StrictSimplex.handle_spec fuel atoms s k tr o tr' hinv hall h
+  rcases ho with ⟨xi, s', rfl⟩ | ⟨j, s', rfl⟩ <;> exact this
+
+def poutcomeTag : POutcome → Nat
+  | .sat _ => 0
+  | .unsat _ _ => 1
+  | .conflict _ _ => 2
+  | .fuel _ => 3
+
+-- s0 > 1 is satisfiable; after x0 ≤ 0 and x1 < 0 it is not; x0 > 1 then x0 ≤ 1 is refused by assert_upper
+example : poutcomeTag (handleAssertionP 9 ⟨exampleStateS, fun _ => 0, fun _ => none, fun _ => none⟩ [.geq 0 ⟨1, 1⟩] 0 []).1 = 0 ∧
+    poutcomeTag (handleAssertionP 9 ⟨exampleStateS, fun _ => 0, fun _ => none, fun _ => none⟩ [.leq 100 ⟨0, 0⟩, .leq 101 ⟨0, -1⟩, .geq 0 ⟨1, 1⟩] 0 []).1 = 1 ∧
+    poutcomeTag (handleAssertionP 9 ⟨exampleStateS, fun _ => 0, fun _ => none, fun _ => none⟩ [.geq 100 ⟨1, 1⟩, .leq 100 ⟨1, 0⟩] 0 []).1 = 2 := by
   decide +kernel
 
 end Holpy.C16
